@@ -173,7 +173,6 @@ func VH_C13_query(kind, key, vk, what int) {
 	vreach("end")
 }
 
-
 // VH_C13_selfvar: stored data whose strings look like variables, searched with a pattern
 // that repeats a variable (the matcher re-matches a bound value as a pattern).
 func VH_C13_selfvar(kind int) {
@@ -188,7 +187,6 @@ func VH_C13_selfvar(kind int) {
 	vhCanary(env, in)
 	vreach("end")
 }
-
 
 // VH_C13_fact_expiring: like VH_C13_fact, the fact also carries a valid expiry (the
 // expiry code visits the other reserved keys).
